@@ -105,6 +105,24 @@ CHECKS = {
     "C40": ("exploration", "proptest histories with strings in maps/lists; parallel walk of the original and the migrated observation",
             "Registers with visible strings become one text object holding the highest-id string; everything else identical; one added change iff strings exist.",
             "Strings inside deleted objects are not visible (fixed defect).", "3/C40"),
+    "C13": ("fault_enumeration", "every truncation point of generated writer files (save + incremental pieces) enumerated; prefix oracle against the per-chunk images",
+            "For every cut of a generated file: load(Error) fails or returns exactly the whole file's document; load(Ignore) returns the document of the complete chunks before the cut; no panic (sandboxed worker).",
+            "Chunk boundaries come from the harness's own container parser.", "3/C13"),
+    "C14": ("fault_enumeration", "single-bit / single-byte faults enumerated over generated files (checksums left alone) plus sampled multi-byte faults",
+            "A corrupted file either fails to load or loads to a document equal to the original, never to a different one; bundles and compressed chunks included.",
+            "Faults in the regions a checksum does not cover (trailing bytes) are classified, not asserted.", "3/C14"),
+    "C15": ("exploration", "proptest structure-aware mutation of generated valid encodings (checksums recomputed, heads re-derived) + raw random inputs, run in a sandboxed worker process for 13 decoder entry points",
+            "Panics, aborts, stack overflows, allocation-cap and CPU-limit hits of load, load_incremental, Change::from_bytes, Bundle, sync Message/State, BloomFilter, Cursor (bytes, str), ObjId, ActorId/ChangeHash, import/import_obj, rescue and receive_sync_message of a decoded message are violations.",
+            "Known findings (semantically inconsistent changes panic in BatchApply; rescue hydrates accepted malformed documents; run-length bombs) are excluded by call-site signature and counted; panics while reading an accepted document are C16's subject.", "3/C15"),
+    "C16": ("exploration", "proptest structure-aware mutation of generated documents with recomputed checksums and re-derived heads; if load accepts, full read battery + edit + merge + save/load round trip in the sandbox",
+            "An accepted mutated document must answer the whole read battery consistently at current and historical heads, accept edits and a merge, and save to bytes that load to an equal document.",
+            "The property is broadly violated on the pinned tree (load does not validate op sets semantically): four known findings keyed on the kind of misbehaviour suppress most of the search space; the replay tier keeps one strict reproduction of each. See DESIGN.md section 4.", "3/C16"),
+    "C17": ("fault_enumeration", "length, count and parameter fields of generated valid encodings set to extreme values (LEB128 maxima, run lengths near 2^31..2^64, bloom parameters), counting allocator + CPU clock in a sandboxed worker",
+            "Per input of n bytes: one allocation request and the live total stay below 64 MiB + 64 KiB*n, CPU below 10 s; a refusal aborts the worker deterministically and names the requesting library function.",
+            "Budget is a generous linear bound; known run-length amplification sites are excluded by the requesting function.", "3/C17"),
+    "C39": ("exploration", "proptest: invalid UTF-8 written over every string site (keys, values, mark names, messages, actor-independent strings) of generated documents, changes, bundles and sync messages, checksums recomputed",
+            "Every string handed out by a document / change that was accepted (keys, text, values, mark names and values, spans, messages, hydrate) must be valid UTF-8; the input is rejected or repaired.",
+            "String sites are located by the harness's column parser; panics are left to C15/C16.", "3/C39"),
 }
 
 PENDING = {}
